@@ -31,7 +31,9 @@ def case_strategy(draw, kauri=False):
     else:
         s = draw(E.est_spec(classes=INDUCTIVE, n_max=14, d_max=4, iter_max=3, k_max=4, hidden_max=4, n_min=3,
                             kernel_forms=("named", "callable"), metric_forms=("named", "callable"),
-                            xkinds=("normal", "grid", "scaled")))
+                            xkinds=("normal", "grid", "scaled", "blobs", "sentinel")))
+        if s["x"]["xkind"] == "sentinel" and s["cls"] not in ("Douglas", "LinearModel", "MLPModel", "SparseLinearModel", "RIM"):
+            s["x"]["xkind"] = "normal"  # kernels and metrics of 1e15-valued samples are a matter for C17, not for this check
     m = draw(st.integers(1, 12))
     idx = draw(st.lists(st.integers(0, m - 1), min_size=0, max_size=m + 3))
     return {"spec": s, "m": m, "idx": idx, "qseed": draw(gens.seeds), "mode": draw(st.sampled_from(["subset", "perm", "single", "all"]))}
